@@ -6,6 +6,12 @@ import json, os
 HOOK_COMMITS = []  # filled from git below
 
 CHECKS = {
+    "C06": ("fault_enumeration", "stateful PBT × crash-point enumeration: every instrumented step (+ byte truncations of the record in flight) reopened and compared with the prefix-of-history model",
+            "Generated histories of upsert/delete/batch/checkpoint/clean-reopen/crash-reopen (nested crash-recover cycles) under 4 flush policies with rotation forced every 4..16 entries (natural 1000-entry rotation in thorough); a crash-point callback copies the state directory at each step of record write, rotation and checkpoint; every image is reopened and must equal S_j for acked ≤ j ≤ issued (flush-always) resp. 0 ≤ j ≤ issued, a batch counting as one operation; clean restart reproduces the full state; transaction ids keep increasing across restarts.",
+            "Crash = process death (page cache survives); crash points are the instrumented ones plus truncations of the record being written.", "5/C06"),
+    "C07": ("fault_enumeration", "PBT over corruption scripts on generated state directories vs an independent reference replay; genuineness, damage reporting, memory bound",
+            "A cleanly closed directory (rotated logs, snapshots) plus a second store for transplants is damaged by 1..3 generated corruptions (bit flips, overwrite, truncate, append, duplicate/move/transplant a record, length-prefix rewrites, key/value re-split keeping the tag, file deletion, key-file damage); the reopened state must equal the reference replay of the damaged files, every value must be one genuinely written for its key, damage that breaks a record or snapshot must show in the statistics, heap growth ≤ 64× file size + 1 MiB, no panic.",
+            "Reference replay counts a framed record iff it is field-for-field identical to one this store wrote; complete-record duplication/reordering and boundary truncation need not be reported.", "5/C07"),
     "C08": ("exploration", "PBT round-trip + tamper-rejection oracle over identity kinds × call sites, real ML-DSA (debug assertions off)",
             "Identity kinds (generated, imported, from_seed, secure, derived path) × messages × tampers (any bit of message/signature/key, extension/truncation, another identity) × every signature-checking call site (ml_dsa_*, NodeIdentity, IPv4/IPv6NodeID per field, SignatureVerifier signature and file incl. unknown/not-yet-valid/expired pinned keys and wrong checksum, Single/Delegated/Threshold/Composite WriteAuth); genuine ⇒ accepted, tampered ⇒ rejected; every bit of one message exhaustively.",
             "Sampled bit flips do not argue unforgeability; keys are generated per run (outcome is key-independent). ThresholdWriteAuth placeholder is a recorded known finding.", "5/C08"),
